@@ -39,7 +39,9 @@ CLAIMED['C07'] = dict(
     text='CrossHair runs BaseTimeParser.match_to_time (English configuration, real am/pm regexes) and the DateTimeFormatUtil time formatters / '
          'to_pm / all_str_to_pm on symbolic h, m, s and reference dates; every (description, hour width, fields present) combination is a slice '
          'and only fully confirmed slices count. Asserts the 24-hour conversion (12 am -> 00, 12 pm -> 12), TIMEX shape, the ampm comment exactly '
-         'for ambiguous hours, the value on the reference date, and that the second reading is exactly +12 h.',
+         'for ambiguous hours, the value on the reference date, and that the second reading is the hour of the other half of the day (always 0..23). '
+         'Chinese clock times: symx runs the real ChineseTimeParser (handle_digit / handle_chinese / pack_time_result / add_description) on symbolic h, m, s with the captures of a real extractor match: '
+         'under a day-part word the hour is the one inside the word\'s window congruent to the stated hour modulo 12 (下午12点 = 12, 晚上12点 = 24 = 00).',
     note='Language layer (O7.1): every HH:MM[:SS] and 12-hour am/pm time is proved to be fully matched by one of the real English time patterns (z3 regex solver, '
          'assertions dropped) and solver-generated members go through recognize_datetime. In O7.2-O7.4 the match object is a stub exposing named groups. ' + NOTE_COMMON,
     design='§5/C07')
@@ -67,8 +69,9 @@ CLAIMED['C09'] = dict(
     technique='bounded symbolic execution (symx + z3) of the real date parser for year-less dates and bare weekdays, symbolic reference datetime',
     text=SX + 'match_to_date/generate_dates (month+day without year, incl. 29 Feb) and parse_implicit_date (bare weekday) plus the resolution builder run '
          'for every day of every month / every weekday and every reference 1950..2090 with symbolic time of day; asserts two candidates in past/future order, '
-         'nearest occurrences around the reference date, open TIMEX.',
-    note='Regex match stubbed. Known finding KF-C09-TOD (reference with a time of day on the very day named) is excluded as a region and searched separately. ' + NOTE_COMMON,
+         'nearest occurrences around the reference date, open TIMEX. At API level the Specs inputs of every culture that yield a candidate pair under an open TIMEX run through the whole model with a symbolic reference datetime: '
+         'the pair must bracket the reference day (same month/day in consecutive years, leap-year neighbours for 29 February, same weekday 7 days apart).',
+    note='Regex match stubbed. Known finding KF-C09-TOD (reference with a time of day on the very day named) is excluded as a region and searched separately. Defect F50 (written-out day: past candidate in the next year) was found by the corpus obligation and repaired. ' + NOTE_COMMON,
     design='§5/C09')
 
 CLAIMED['C17'] = dict(
@@ -117,8 +120,8 @@ CLAIMED['C10'] = dict(
          'A range between two absolute dates runs through BaseDatePeriodParser.parse with the start day number (1900..2088) and the gap (1..4000 days) symbolic: '
          'resolved start/end must be exactly the endpoints and the TIMEX (start,end,PnD) must satisfy end - start = n. "from <time> to <time>" runs through '
          'BaseTimePeriodParser.merge_two_time_points with both clock times symbolic (marked or unmarked am/pm): start < end <= start + 24 h and the PT..H..M of the TIMEX equals end - start. '
-         'luis_time_span is checked on symbolic instants.',
-    note='Inner number/date/time extractors and parsers are stubs feeding symbolic values; fractional amounts, date-time ranges and the Specs-corpus clause are outside. '
+         'luis_time_span is checked on symbolic instants. At API level the Specs inputs of every culture that yield a (start,end,duration) TIMEX run through the whole model with a symbolic reference datetime: with both endpoints definite, end - start must equal the duration.',
+    note='Inner number/date/time extractors and parsers are stubs feeding symbolic values; fractional amounts are outside; the corpus clause is covered on the screened pool of inputs (harness/c11_inputs*.json). '
          'Defect F10 (Feb-29 year synchronisation applied to explicit-year ranges) was found by O10.4 and repaired. ' + NOTE_COMMON,
     design='§5/C10')
 CLAIMED['C11'] = dict(
@@ -126,10 +129,10 @@ CLAIMED['C11'] = dict(
     text=SX + 'set_parse_result/_date_time_resolution and helpers run on resolution dictionaries rendered by the real formatters from symbolic datetimes, one slice per '
          '(type, modifier, validity pattern): values have the promised shape, the type name equals the value type, min-value sides never appear, nothing valid gives exactly '
          'one "not resolved", past precedes future. safe_create_from_min_value / is_valid_date / is_valid_time are checked on symbolic fields incl. out-of-range ones.'
-         ' At API level every English DateTimeModel Specs input of a screened pool (47 quick, 900 thorough; expected outputs not consulted) runs through the whole real model with a symbolic reference datetime '
-         '(every minute 1950..2090): every emitted value must have the shape its type promises, date ranges start before end.',
+         ' At API level every DateTimeModel Specs input of a screened pool (en, zh, es, fr, pt, de, it, nl; about 140 quick, 2000+ thorough; expected outputs not consulted) runs through the whole real model with a symbolic reference datetime '
+         '(every minute 1950..2090): every emitted value must have the shape its type promises, date ranges start before end, and a value whose TIMEX is fully definite equals it.',
     note='The per-type parsers are represented by the dictionaries they hand over. Non-existent input dates -> "not resolved" and definite TIMEX = value are decided end to end '
-         'for dates by C06 O6.2 and for times by C07. Other cultures, set/timezone types and holiday tables are outside; known findings F45, F46 are excluded by input. ' + NOTE_COMMON,
+         'for dates by C06 O6.2 and for times by C07. Set/timezone types are outside; the inputs of known findings F45, F48 are explored by their own known-region obligations; F46 (to_pm) and F47 (Chinese year-less period) were found here and repaired. ' + NOTE_COMMON,
     design='§5/C11')
 
 CLAIMED['C13'] = dict(
